@@ -4,6 +4,7 @@ import (
 	"fmt"
 	"math/rand"
 	"sort"
+	"strings"
 	"time"
 
 	"verif/harness/enc"
@@ -11,26 +12,27 @@ import (
 
 // Profile selects which parts of the API a random history exercises.
 type Profile struct {
-	Name        string
-	Len         int
-	Locs        []string
-	Ids         []string
-	Expiry      bool
-	Parents     bool
-	Keys        bool
-	Rules       bool
-	Reload      bool
-	Cascade     bool
-	Fan         bool // most facts are dependents (deleteWith) of one of the first two ids; those are what gets removed
-	HostileQ    bool // ids and strings starting with "?"
-	Index       bool // rule patterns that share index prefixes; events instantiated from stored patterns
-	Cron        bool // mostly scheduled rules; ticks
-	Scheduled   bool // some rules have a schedule instead of a when
-	SideEffects bool // some rule actions report their bindings, throw, or write a fact (Env.AddFact)
-	Dispatch    bool // rules with conditions and reporting / failing actions
-	MixedEvents bool // events may hold arrays of mixed scalar types (known finding D_UNSORTABLE_EVENT)
-	MaxFacts    int
-	Weights     map[string]int
+	Name         string
+	Len          int
+	Locs         []string
+	Ids          []string
+	Expiry       bool
+	Parents      bool
+	Keys         bool
+	Rules        bool
+	Reload       bool
+	Cascade      bool
+	Fan          bool // most facts are dependents (deleteWith) of one of the first two ids; those are what gets removed
+	BadRuleFacts bool // now and then AddFact is given a rule-shaped fact that is no rule (refused by the state)
+	HostileQ     bool // ids and strings starting with "?"
+	Index        bool // rule patterns that share index prefixes; events instantiated from stored patterns
+	Cron         bool // mostly scheduled rules; ticks
+	Scheduled    bool // some rules have a schedule instead of a when
+	SideEffects  bool // some rule actions report their bindings, throw, or write a fact (Env.AddFact)
+	Dispatch     bool // rules with conditions and reporting / failing actions
+	MixedEvents  bool // events may hold arrays of mixed scalar types (known finding D_UNSORTABLE_EVENT)
+	MaxFacts     int
+	Weights      map[string]int
 }
 
 type Gen struct {
@@ -84,6 +86,11 @@ func (g *Gen) value(depth int) interface{} {
 var topKeys = []string{"a", "b", "c", "d"}
 
 func (g *Gen) Fact() map[string]interface{} {
+	if g.P.BadRuleFacts && g.R.Intn(10) == 0 {
+		// a fact shaped like a rule that cannot be one (no when, no schedule): the write is refused, late,
+		// by the state; whatever was under the id before must be exactly as findable as it was
+		return map[string]interface{}{"rule": map[string]interface{}{"action": map[string]interface{}{"code": "1"}}}
+	}
 	m := map[string]interface{}{}
 	for i, k := 0, 1+g.R.Intn(3); i < k; i++ {
 		m[g.pick(topKeys)] = g.value(2)
@@ -107,6 +114,14 @@ func (g *Gen) Fact() map[string]interface{} {
 		g.addExpiry(m)
 	}
 	return m
+}
+
+// fanHead: in fan profiles the facts the others depend on are short-lived
+func (g *Gen) fanHead(id string, m map[string]interface{}) {
+	if g.P.Fan && g.P.Expiry && (id == g.P.Ids[0] || id == g.P.Ids[1]) && g.R.Intn(3) > 0 {
+		delete(m, "expires")
+		m["ttl"] = []interface{}{"1s", 1.0, "2s"}[g.R.Intn(3)]
+	}
 }
 
 func (g *Gen) addExpiry(m map[string]interface{}) {
@@ -251,14 +266,32 @@ func (g *Gen) condition() map[string]interface{} {
 		return pat()
 	case 3, 4:
 		// two DIFFERENT sub-queries: the value encoding keeps arrays as sets
-		a, b := pat(), pat()
+		// `or`: every disjunct sees the incoming bindings only, so anything goes (patterns, scripts, not);
+		// `and`: conjuncts are threaded, and the encoding does not keep their order, so only conjuncts
+		// that commute: patterns over ?x ?y, and scripts (the binding one of them adds, z, is no pattern's)
+		isAnd := g.R.Intn(2) == 0
+		sub := func() map[string]interface{} {
+			switch n := g.R.Intn(5); {
+			case n == 0:
+				code := []string{"({z: 7})", "true", "false"}[g.R.Intn(3)]
+				g.T.NoteCondCode(code, map[string]string{"true": "true", "false": "false", "({z: 7})": "obj"}[code])
+				return map[string]interface{}{"code": code}
+			case n == 1 && !isAnd:
+				return map[string]interface{}{"not": pat()}
+			}
+			if isAnd {
+				return map[string]interface{}{"pattern": g.smallPattern([]string{"?x", "?y"})}
+			}
+			return pat()
+		}
+		a, b := sub(), sub()
 		for i := 0; i < 20 && fmt.Sprint(a) == fmt.Sprint(b); i++ {
-			b = pat()
+			b = sub()
 		}
 		if fmt.Sprint(a) == fmt.Sprint(b) {
 			return a
 		}
-		if g.R.Intn(2) == 0 {
+		if isAnd {
 			return map[string]interface{}{"and": []interface{}{a, b}}
 		}
 		return map[string]interface{}{"or": []interface{}{a, b}}
@@ -329,7 +362,33 @@ func (g *Gen) dispatchRule() map[string]interface{} {
 		}
 		r["actions"] = as
 	}
+	// serial actions: only for rules none of whose actions fails (what a failing action of a serial rule
+	// leaves undone depends on the order in which the rules happen to be walked)
+	failing := false
+	for _, a := range actionsOf(r) {
+		if c, _ := a["code"].(string); strings.HasPrefix(c, "throw") || strings.HasPrefix(c, "Env.AddFact") {
+			failing = true
+		}
+	}
+	if !failing && g.R.Intn(3) == 0 {
+		r["policies"] = map[string]interface{}{"serialActions": true}
+	}
 	return r
+}
+
+func actionsOf(r map[string]interface{}) []map[string]interface{} {
+	out := []map[string]interface{}{}
+	if a, ok := r["action"].(map[string]interface{}); ok {
+		out = append(out, a)
+	}
+	if as, ok := r["actions"].([]interface{}); ok {
+		for _, x := range as {
+			if a, ok := x.(map[string]interface{}); ok {
+				out = append(out, a)
+			}
+		}
+	}
+	return out
 }
 
 func (g *Gen) dispatchEvent() map[string]interface{} {
@@ -618,7 +677,7 @@ func (g *Gen) weighted() string {
 
 var opOrder = []string{"Tick", "Restart", "BadRequest", "CreateLocation", "AddFact", "RemFact", "GetFact", "SearchFacts", "AddRule", "RemRule", "GetRule",
 	"EnableRule", "SetParents", "GetParents", "Clear", "StateSize", "ListRules", "SearchRules",
-	"ProcessEvent", "SetReadOnly", "Reload", "Sleep", "SetKey"}
+	"ProcessEvent", "SetReadOnly", "Reload", "Sleep", "SleepReload", "SetKey"}
 
 // Next draws the next operation.
 func (g *Gen) Next() Op {
@@ -631,6 +690,7 @@ func (g *Gen) Next() Op {
 	switch op.Op {
 	case "AddFact":
 		op.Id, op.Val = id, g.Fact()
+		g.fanHead(id, op.Val)
 		if g.P.Dispatch || g.P.Cron {
 			op.Val = g.smallFact()
 		}
